@@ -32,7 +32,7 @@ struct C09 : Check {
 		Rng &r; int uniq = 0;
 		explicit G(Rng &r_) : r(r_) {}
 		std::string word() { return (r.chance(1, 5) ? utf8_enc(0xe9) + utf8_enc(0x4e2d) : std::string()) + "v" + std::to_string(++uniq) + gen_line(r, r.range(0, 4), A_LOWER); }
-		std::string motion() { static const char *m[] = {"w", "b", "e", "l", "h", "$", "0", "j", "k", "G", "1G", "fa", "tb", "W", "}", "{", "2w", "3l", "^", "%"}; return m[r.below(20)]; }
+		std::string motion() { static const char *m[] = {"w", "b", "e", "l", "h", "$", "0", "j", "k", "G", "1G", "fa", "tb", "W", "}", "{", "2w", "3l", "^", "%", "\x0c"}; return m[r.below(21)]; }	// ^L re-initialises the terminal: pushed keys must survive it
 		std::string opmotion() { static const char *m[] = {"w", "e", "b", "$", "0", "l", "h", "j", "k", "fa", "tz", "2w", "W", "}", "G", "iw_no"}; std::string s = m[r.below(15)]; return s; }
 		std::string change(bool allow_prompt)
 		{
@@ -110,6 +110,23 @@ struct C09 : Check {
 		p.files.push_back(f);
 		p.argv.push_back("F");
 		p.env.clear(); p.env.push_back({"EXINIT", r.chance(1, 3) ? "se noai" : ""});
+		if (r.chance(1, 120)) {
+			// 'N.' where N copies of the recorded command fill the 4 KiB input buffer exactly, nearly, or not
+			// quite: the statement covers all repeat counts of a (short) recorded command
+			static const char *cmds[] = {"x", "dl", "\"add", "rZ"};
+			std::string cmd = cmds[r.below(4)];
+			long len = (long) cmd.size();
+			bool over = r.chance(1, 2);
+			long n = over ? 4096 / len + r.range(1, 4) : 4096 / len - r.range(0, 1);
+			p.variant = over ? "dot-overflow" : "dot-fill";
+			p.files[0].data.clear();
+			if (cmd == "\"add") for (long i = 0; i < n + 10; i++) p.files[0].data += "l" + std::to_string(i) + "\n";
+			else p.files[0].data = std::string((size_t) (n + 20), 'q') + "\nsecond\n";
+			p.steps.push_back(both(cmd, cmd, "change"));
+			p.steps.push_back(both(std::to_string(n) + ".", times(cmd, n), "repeat"));
+			p.steps.push_back(both("ix\x1b", "ix\x1b", "suffix"));
+			return p;
+		}
 		int np = (int) r.range(0, 5);
 		for (int i = 0; i < np; i++) { std::string k = r.chance(1, 2) ? g.motion() : g.change(true); p.steps.push_back(both(k, k, "prefix")); }
 		int variant = (int) r.below(3);
